@@ -350,37 +350,55 @@ def r5(ctx, rep):
     rep.check(any(k == "order_by" and v is not None and show(v, maxdepth=5).startswith("order_by.last().map(") for k, v in all_locs), "last-sort-wins",
               "ORDER BY must be the last Sort of the atomic pipeline", file=f["file"], line=f["l"], fn=f["path"])
     g = syn.fn("gen_expr::range_of_ranges", crate="prqlc")
-    asg = {}
-    for n in walk(g["body"]):
-        if n.get("k") == "assign":
-            asg.setdefault(show(n["lhs"]), []).append(n["rhs"])
-    # start' = a.start + b.start - 1
-    st = asg.get("range.start", [None])[0]
-    ok = False
-    if st is not None and st.get("k") == "mcall" and st["m"] == "or_map" and show(st["r"]) == "range.start" and show(st["a"][0]) == "current.start":
-        cl = st["a"][1]
-        try:
-            ok = linear.norm(linear.linear(cl["body"])) == (("", -1), (show(cl["params"][0]), 1), (show(cl["params"][1]), 1)) or \
-                sorted(linear.norm(linear.linear(cl["body"]))) == sorted((("", -1), (show(cl["params"][0]), 1), (show(cl["params"][1]), 1)))
-        except linear.NotLinear:
-            ok = False
-    rep.check(ok, "compose:start", "start of `take a | take b` must be a.start + b.start - 1 (1-based positions)", file=g["file"], line=g["l"], fn=g["path"])
-    ends = asg.get("range.end", [])
-    ok1 = ok2 = False
-    for e in ends:
-        if e.get("k") == "mcall" and e["m"] == "map" and show(e["r"]) == "range.end":
-            cl = e["a"][0]
-            body = cl["body"]
-            # current.start.unwrap_or(1) + b - 1
-            try:
-                # `current.start.unwrap_or(1)` is one symbol of the linear form
-                ok1 = linear.norm(linear.linear(body)) == tuple(sorted({"": -1, "current.start.unwrap_or(1)": 1, show(cl["params"][0]): 1}.items()))
-            except linear.NotLinear:
-                ok1 = False
-        if e.get("k") == "mcall" and e["m"] == "or_map" and show(e["r"]) == "current.end":
-            ok2 = show(e["a"][0]) == "range.end" and show(e["a"][1]) == "i64::min"
-    rep.check(ok1, "compose:end", "end of the inner range must be rebased: a.start (default 1) + b.end - 1", file=g["file"], line=g["l"], fn=g["path"])
-    rep.check(ok2, "compose:min", "the composed end must be the MIN of both ends (a later take cannot widen an earlier one)", file=g["file"], line=g["l"], fn=g["path"])
+    # the composition step (body of the loop over the ranges) is evaluated abstractly, per case of which of the four bounds are
+    # present, over the domain None | Some(linear form | min): whatever it is spelled like, it must compute
+    #   start' = a.start + b.start - 1 | the one that is present | None          (1-based positions)
+    #   end'   = min(a.end, (a.start or 1) + b.end - 1) | the one that is present | None
+    import optlin
+    loops = [n for n in walk(g["body"]) if n.get("k") == "for"]
+    if len(loops) != 1:
+        raise AnchorMissing("range_of_ranges: expected one loop over the ranges")
+    loop = loops[0]
+    item = [x["n"] for x in walk(loop["pat"]) if x.get("k") == "p_ident"]
+    acc = None
+    for st in g["body"]["s"]:
+        if st.get("k") == "local" and st["pat"].get("k") == "p_ident" and st["pat"].get("mut") and "default" in show(st.get("init")):
+            acc = st["pat"]["n"]
+    if acc is None or len(item) != 1:
+        raise AnchorMissing("range_of_ranges: accumulator `let mut <acc> = Range::default()` / loop variable not found")
+    helpers = {f_["name"]: f_ for f_ in syn.fns if f_.get("name") == "or_map" and "body" in f_}
+    body = dict(loop["body"])
+    # the conversion of the loop item to integers (`let mut range = try_range_into_int(range)?`) keeps the bounds: its result is the symbolic input
+    conv = [st for st in body["s"] if st.get("k") == "local" and st.get("init") is not None and st["init"].get("k") == "try"]
+    names = [st["pat"]["n"] for st in conv if st["pat"].get("k") == "p_ident"] or item
+    body["s"] = [st for st in body["s"] if not any(st is c for c in conv)]
+    bad, n_cases = [], 0
+    for a_s in (True, False):
+        for a_e in (True, False):
+            for b_s in (True, False):
+                for b_e in (True, False):
+                    n_cases += 1
+                    S = lambda present, name: optlin.some(optlin.lin(name)) if present else optlin.NONE
+                    env = {acc: {"start": S(a_s, "a.start"), "end": S(a_e, "a.end")}, names[0]: {"start": S(b_s, "b.start"), "end": S(b_e, "b.end")}}
+                    one = optlin.lin(None, 1)
+                    want_start = optlin.some(optlin.add(optlin.add(optlin.lin("a.start"), optlin.lin("b.start")), one, -1)) if a_s and b_s else S(a_s, "a.start") if a_s else S(b_s, "b.start")
+                    rebased = optlin.add(optlin.add(optlin.lin("a.start") if a_s else one, optlin.lin("b.end")), one, -1) if b_e else None
+                    want_end = optlin.some(optlin.mn(optlin.lin("a.end"), rebased)) if a_e and b_e else S(a_e, "a.end") if a_e else (optlin.some(rebased) if b_e else optlin.NONE)
+                    case = f"a=({'s' if a_s else '-'},{'e' if a_e else '-'}) b=({'s' if b_s else '-'},{'e' if b_e else '-'})"
+                    try:
+                        _, out = optlin.Interp(helpers).block(body, env)
+                        got = out.get(acc)
+                        if not isinstance(got, dict) or got.get("start") != want_start or got.get("end") != want_end:
+                            bad.append((case, "start" if not isinstance(got, dict) or got.get("start") != want_start else "end", got))
+                    except optlin.Unsupported as e:
+                        bad.append((case, "unreadable", str(e)))
+    def pretty(v):
+        return repr(v).replace("('lin', ", "").replace("'", "")[:160]
+    for what, key, msg in (("start", "compose:start", "start of `take a | take b` must be a.start + b.start - 1 (1-based positions), or the one that is present"),
+                           ("end", "compose:end", "end of `take a | take b` must be min(a.end, (a.start or 1) + b.end - 1): the later range counts from the first row the earlier one left, and cannot widen it")):
+        mine = [b for b in bad if b[1] in (what, "unreadable")]
+        rep.check(not mine, key, f"{msg}; of the {n_cases} cases of present bounds, {len(mine)} differ, e.g. {mine[0][0]}: computed {pretty(mine[0][2])}" if mine else msg,
+                  file=g["file"], line=loop["l"], fn=g["path"])
     # by role: `Range { start: None, end: Some(0) }` is built under the condition end < start, where (start, end) are the two
     # names bound from (current.start, current.end) in that order - `if let .. zip`, `match` on a pair, or nested ifs
     import guards
